@@ -84,6 +84,7 @@ fn on_enum(inp: &mut syn::DeriveInput) -> syn::Result<proc_macro2::TokenStream> 
     for ((var, idx), attrs) in data.variants.iter().zip(variants.indices.iter()).zip(&variants.attrs) {
         let fields   = Fields::try_from(var.ident.span(), var.fields.iter())?;
         let con      = &var.ident;
+        let idx      = proc_macro2::Literal::u32_suffixed(idx.val());
         let encoding = attrs.encoding().unwrap_or(enum_encoding);
         let tag      = on_tag(attrs);
         let row = match &var.fields {
@@ -178,7 +179,7 @@ fn on_fields(fields: &Fields, has_self: bool, encoding: Encoding) -> syn::Result
                 let cbor_len = cbor_len(field.attrs.cbor_len(), field.attrs.codec());
                 let is_nil   = is_nil(&field.typ, field.attrs.codec());
                 let ident    = &field.ident;
-                let idx      = field.index;
+                let idx      = proc_macro2::Literal::u32_suffixed(field.index.val());
                 let tag      = on_tag(&field.attrs);
                 if has_self {
                     if field.is_name {
